@@ -42,8 +42,11 @@ func c14Desc(p *core.Program, fn *ssa.Function) *pathCtx {
 			return "", false
 		}
 		inner := newPathCtx(p)
-		if sc, ok := classifyScan(inner, fn, ia.Index, ia.X); ok && sc.dir == +1 {
-			return "each(" + stripAmp(base) + ")", true
+		if sc, ok := classifyScan(inner, fn, ia.Index, ia.X); ok {
+			if sc.dir == +1 {
+				return "each(" + stripAmp(base) + ")", true
+			}
+			return "eachrev(" + stripAmp(base) + ")", true
 		}
 		// the index scans another parameter slice completely: positional pairing
 		for _, prm := range fn.Params {
